@@ -140,6 +140,8 @@ class WitnessModel(Model):
                 return r
             if attr == 'masks':
                 return v.members.get('masks', {})
+            if attr == 'bins':
+                return None  # an array of scalars is dense data
             return BoundModel(v, attr)
         if 'concrete' in v.members and attr == 'value':
             return v.members['concrete']
@@ -320,6 +322,17 @@ class WitnessModel(Model):
 
     # ---- methods ---------------------------------------------------------------------------------------
     def call_method(self, interp, recv, name, args, kwargs, node):
+        if isinstance(recv, BoundModel) and recv.name == 'coords' and name == 'is_edges' and isinstance(recv.recv, SVar) and self._is_arr(recv.recv) \
+                and args and isinstance(args[0], str):
+            # a coordinate is bin edges along a dimension iff it is one longer than the data
+            recv = recv.recv
+            c = (recv.members.get('coords') or {}).get(args[0])
+            if c is None:
+                raise RaiseSignal('KeyError', node, interp.where(node), (args[0],))
+            n_c = len(items_of(c)) if isinstance(c, SVar) and items_of(c) is not None else None
+            n_d = len(items_of(recv)) if items_of(recv) is not None else None
+            if n_c is not None and n_d is not None:
+                return n_c == n_d + 1
         if isinstance(recv, SVar) and self._is_arr(recv):
             if name == 'copy':
                 deep = kwargs.get('deep', args[0] if args else True)
